@@ -4,4 +4,11 @@ CONSTANTS c1, c2, c3, w1, w2, rp, rb
 KQuick == {"hit", "miss", "malformed", "badOpcode", "panic", "ignoredByChain", "writeHandoff"}
 KSmall == {"hit", "miss", "malformed", "panic"}
 NoReaders == {}
+KBatch == {"hit", "miss", "malformed", "ignoredByChain", "writeHandoff"}
+KBatchP == {"hit", "miss", "malformed", "panic", "ignoredByChain", "writeHandoff"}
+KAllKinds == AllKinds
+KMixedSmall == {"hit", "malformed"}
+KMixed == {"hit", "miss", "malformed"}
+KPortable == {"hit", "malformed", "panic"}
+SymClients == Permutations(Clients)
 =============================================================================
